@@ -280,17 +280,105 @@ def rule_leading_backslash(case, sig, extra, match):
         explained_by(extra[0], extra[1], [t_leading_backslash, t_formfeed])
 
 
+def _unbalanced_closer(text, v):
+    """a closing bracket occurs while no bracket is open (per parso's own token stream)"""
+    from parso.utils import parse_version_string
+    from parso.python.tokenize import tokenize
+    depth = 0
+    for t in tokenize(text, version_info=parse_version_string(v)):
+        if t.type.name == 'OP':
+            if t.string in '([{':
+                depth += 1
+            elif t.string in ')]}':
+                if depth == 0:
+                    return True
+                depth -= 1
+    return False
+
+
 def rule_not_compilable(case, sig, extra, match):
-    """C10-F2..: leniencies of CPython's `tokenize` module on input its own compiler rejects
-    (3.12+: '01' one NUMBER, '<>' one OP, NEWLINE after a continuation + blank line, INDENT after an
-    indented continuation; <= 3.11: similar cases).  Predicate: the interpreter's compile() rejects the text."""
+    """C10-F2: leniencies of CPython's `tokenize` module on input its own compiler rejects.
+    (a) any version: a closing bracket without an open one drives tokenize's bracket counter negative, so a later
+        newline is still a logical NEWLINE for it;
+    (b) 3.12+: the C-tokenizer based module passes texts that the pure-Python tokenizer of 3.11 rejected ('$' and
+        '?' as OP, '01' as one NUMBER, '<>', a BOM inside a str as NAME, unterminated f-strings, ...).
+    Predicate: compile() of that interpreter rejects the text AND ((a) holds OR (b) the version is >= 3.12 and
+    CPython 3.11's tokenize does not accept the text)."""
     if not extra:
         return False
+    text, v, seqs, r = extra
+    if cpyref.get(v).call('compile', [text])[0] != 0:
+        return False
+    if _unbalanced_closer(text, v):
+        return True
+    if v in ('3.12', '3.13', '3.14'):
+        r311 = cpyref.get('3.11')
+        if r311.available():
+            return 'err' in r311.call('tokenize', [text])[0]
+    return False
+
+
+def _rejected(extra):
     text, v, seqs, r = extra
     return cpyref.get(v).call('compile', [text])[0] == 0
 
 
-RULES = {'c10_formfeed_indent': rule_formfeed_indent, 'c10_leading_backslash': rule_leading_backslash,
+def rule_leading_zero(case, sig, extra, match):
+    """C10-F4: (3.12+) tokenize returns a decimal literal with a leading zero ('01', '00_1') as one NUMBER although
+    the compiler rejects it; parso (like tokenize <= 3.11) splits it."""
+    if not extra or extra[1] not in ('3.12', '3.13', '3.14') or not _rejected(extra):
+        return False
+    return any(t[0] == 'NUMBER' and re.match(r'0[0-9_]*[1-9]', t[1]) for t in extra[3].get('toks', []))
+
+
+def rule_diamond(case, sig, extra, match):
+    """C10-F5: (3.12+) tokenize returns '<>' as one OP (barry_as_FLUFL), parso as '<' '>'."""
+    if not extra or extra[1] not in ('3.12', '3.13', '3.14') or not _rejected(extra):
+        return False
+    return '<>' in extra[0]
+
+
+def rule_break_keyword_in_brackets(case, sig, extra, match):
+    """C10-F6: by design (error recovery) a keyword that always starts a statement (def, class, import, return, ...)
+    closes all open brackets / f-strings for parso's tokenizer; CPython's tokenize keeps them open.  Only on input the
+    compiler rejects."""
+    if not extra or not _rejected(extra):
+        return False
+    from parso.utils import parse_version_string
+    from parso.python.tokenize import tokenize, _get_token_collection
+    vi = parse_version_string(extra[1])
+    brk = _get_token_collection(vi).always_break_tokens
+    depth = 0
+    fdepth = 0
+    for t in tokenize(extra[0], version_info=vi):
+        n = t.type.name
+        if n == 'FSTRING_START':
+            fdepth += 1
+        elif n == 'FSTRING_END':
+            fdepth = max(0, fdepth - 1)
+        elif n == 'OP' and t.string in '([{':
+            depth += 1
+        elif n == 'OP' and t.string in ')]}':
+            depth = max(0, depth - 1)
+        elif n in ('NAME', 'OP') and t.string in brk and (depth or fdepth):
+            return True
+    return False
+
+
+def rule_invalid_fstring(case, sig, extra, match):
+    """C10-F7: parso tokenizes the inside of f-strings (also for grammars < 3.12, where CPython's tokenize returns
+    one opaque STRING found by a regex); on input the compiler rejects (unterminated or garbage f-strings) the two
+    models cannot agree."""
+    if not extra or not _rejected(extra):
+        return False
+    from parso.utils import parse_version_string
+    from parso.python.tokenize import tokenize
+    return any(t.type.name == 'FSTRING_START' for t in tokenize(extra[0], version_info=parse_version_string(extra[1])))
+
+
+RULES = {'c10_leading_zero': rule_leading_zero, 'c10_diamond': rule_diamond,
+         'c10_break_keyword_in_brackets': rule_break_keyword_in_brackets, 'c10_invalid_fstring': rule_invalid_fstring,
+         'c10_formfeed_indent': rule_formfeed_indent, 'c10_leading_backslash': rule_leading_backslash,
          'c10_not_compilable': rule_not_compilable}
 
 
